@@ -53,7 +53,9 @@ def rule_gt_forward(repo):
     R = Rule("R-GT-FORWARD", "Gt operations forward to the Fq12 operation on the wrapped values (mul in order, pow with the scalar's inner value, inverse mapped back)", floor=4)
     specs = {
         "<crate::Gt as core::ops::Mul>::mul": lambda rv: rv[0] == "agg" and strip(rv[3][0])[0] == "call" and strip(rv[3][0])[1].name == "mul" and [strip(a) for a in strip(rv[3][0])[2]] == [("field", ("param", 1), 0), ("field", ("param", 2), 0)],
-        "crate::Gt::pow": lambda rv: rv[0] == "agg" and strip(rv[3][0])[0] == "call" and strip(rv[3][0])[1].name == "pow" and "FieldElement" in strip(rv[3][0])[1].i and strip(strip(rv[3][0])[2][0]) == ("field", ("init", ("deref", 1)), 0) and strip(strip(rv[3][0])[2][1]) == ("field", ("param", 2), 0),
+        "crate::Gt::pow": lambda rv: rv[0] == "agg" and strip(rv[3][0])[0] == "call" and strip(rv[3][0])[1].name == "pow" and "FieldElement" in strip(rv[3][0])[1].i and strip(strip(rv[3][0])[2][0]) == ("field", ("init", ("deref", 1)), 0) and
+        # (the scalar's inner value — handed over as it is, or already taken out of Montgomery form where `pow` expects the integer)
+        (strip(strip(rv[3][0])[2][1]) == ("field", ("param", 2), 0) or shared.is_canon_conv(strip(rv[3][0])[2][1], "crate::fields::fp::Fr") == ("field", ("param", 2), 0)),
         "crate::Gt::inverse": lambda rv: rv[0] == "call" and rv[1].name == "map" and strip(rv[2][0])[0] == "call" and strip(rv[2][0])[1].name == "inverse" and strip(strip(rv[2][0])[2][0]) == ("field", ("init", ("deref", 1)), 0),
         "crate::Gt::to_slice": lambda rv: rv[0] == "call" and rv[1].d == "crate::fields::fq12::Fq12::to_slice" and strip(rv[2][0]) == ("field", ("param", 1), 0),
     }
